@@ -104,6 +104,7 @@ SITE = {('in',  'client'): 'tmgr.staging_input.Default._handle_task',
         ('out', 'agent' ): 'agent.staging_output.Default._handle_task_staging',
         ('out', 'client'): 'tmgr.staging_output.Default._handle_task'}
 SITE_EXPAND = 'staging_directives.expand_staging_directives'
+SITE_RESOLVE = 'staging_directives.complete_url'
 
 # state in which a component works on a task -> component
 WORK_STATE = {rps.TMGR_SCHEDULING      : 'tmgr.scheduler.RoundRobin.work',
@@ -141,8 +142,10 @@ def rel_name(role, direction, idx, shape, odd=None):
     if shape == 'sub':
         if role == 'src': name = 'sd%d/%s'    % (idx, name)
         else            : name = 'td%d/x/%s'  % (idx, name)
-    if odd == 'dotdot' and role == 'src':
+    if odd == 'dotmid' and role == 'src':
         name = 'up%d/../%s' % (idx, name)
+    if odd == 'dotdot' and role == 'src':
+        name = '../up%d/%s' % (idx, name)
     return name
 
 
@@ -491,21 +494,69 @@ class Collector(report.Part):
         super().__init__()
         self.evals = dict()     # attrs -> number of evaluated directives
         self.fails = dict()     # (what, site, attrs) -> (detail, replay)
+        self.unst  = dict()     # (key, direction, action) -> (detail, replay)
+        self.multi = dict()     # (site, attrs of all directives) -> ...
+
+    def task_failed(self, site, dirs, detail, replay):
+        """a task whose directives can all be carried out was FAILED"""
+        combos = tuple(attrs_of(d) for d in dirs)
+        if len(combos) == 1:
+            self.evals[combos[0]] = self.evals.get(combos[0], 0) + 1
+            key = ('task-failed', site, combos[0])
+            if key not in self.fails:
+                self.fails[key] = (detail, replay)
+        else:
+            key = (site, combos)
+            if key not in self.multi:
+                self.multi[key] = (detail, replay)
+
+    def unstageable(self, d, key, detail, replay):
+        """a directive which could not be carried out did not fail the task;
+        subsumed (in `aggregate`) if directives of that kind are never carried
+        out at all"""
+        k = (key, d.direction, d.action)
+        if k not in self.unst:
+            self.unst[k] = (detail, replay)
 
     def dump(self):
         ret = super().dump()
         ret['c11'] = {'evals': list(self.evals.items()),
-                      'fails': [(k, v) for k, v in self.fails.items()]}
+                      'fails': [(k, v) for k, v in self.fails.items()],
+                      'unst' : [(k, v) for k, v in self.unst.items()],
+                      'multi': [(k, v) for k, v in self.multi.items()]}
         return ret
 
 
-ATTRS = ['direction', 'action', 'form', 'src', 'src_shape', 'tgt', 'tgt_shape',
-         'odd']
+ATTRS = ['direction', 'op', 'action', 'form', 'src', 'src_shape', 'tgt',
+         'tgt_shape', 'odd']
+OPS   = {TRANSFER: 'copy', COPY: 'copy', LINK: 'link', MOVE: 'move',
+         TARBALL : 'tar'}
 
 
 def attrs_of(d):
-    return (d.direction, d.action, d.form, d.src_loc, d.src_shape,
-            d.tgt_loc or 'default', d.tgt_shape or '-', d.odd or '-')
+    return (d.direction, OPS[d.action], d.action, d.form, d.src_loc,
+            d.src_shape, d.tgt_loc or 'default', d.tgt_shape or '-',
+            d.odd or '-')
+
+
+def resolution_fault(d, sbx):
+    """diagnosis: does the real complete_url(), called in isolation with the
+    documented contexts, resolve this directive like the reference does?"""
+    from radical.pilot.staging_directives import complete_url
+    spwd, tpwd = pwd_of(d.direction, d.action, sbx)
+    for side, text, pwd, want in (('source', d.src_text,     spwd, d.src_path),
+                                  ('target', d.exp_tgt_text, tpwd, d.tgt_path)):
+        ctx = dict(sbx, pwd=pwd)
+        if d.side == 'agent':
+            ctx.pop('client')
+        try:
+            got = os.path.normpath(ru.Url(complete_url(text, ctx)).path)
+        except Exception:
+            continue
+        if got != want and not (d.side == 'agent' and
+                                text.startswith('client:')):
+            return side
+    return None
 
 
 def backend_copy_fails(w, d):
@@ -570,13 +621,15 @@ def check_targets(part, w, tm, directives, replay, verbose, obs):
             what = 'misplaced'
         if exp and (exp[0] != d.src_text or exp[1] != d.exp_tgt_text):
             site = SITE_EXPAND
+        elif d.action == TARBALL and d.direction == 'out':
+            site = 'agent.staging_output.Default.work+' \
+                   'tmgr.staging_output.Default.work'
+        elif resolution_fault(d, tm.sbx):
+            site = SITE_RESOLVE
         elif d.action == TARBALL and d.direction == 'in':
             tar = '%s/%s.tar' % (tm.sbx['task'], tm.uid)
             if os.path.isfile(tar):
                 site = SITE[('in', 'agent')]
-        elif d.action == TARBALL and d.direction == 'out':
-            site = 'agent.staging_output.Default.work+' \
-                   'tmgr.staging_output.Default.work'
         elif d.action in (COPY, TRANSFER) and what == 'missing' \
                 and os.path.isfile(d.src_path):
             backend = backend_copy_fails(w, d)
@@ -592,14 +645,14 @@ def check_targets(part, w, tm, directives, replay, verbose, obs):
                 ignores, backend = copy_ignores_errors(w)
                 if ignores:
                     site = '%s.copy' % backend
-            part.violation('unstageable-not-failed|%s|%s'
-                           % (site, d.refusable),
-                           {'what': '%s: %r (%s) was neither refused nor '
-                                    'carried out: nothing valid at %s (%s), '
-                                    'but the task was passed on'
-                                    % (tm.uid, d.as_input(), d.refusable,
-                                       d.tgt_path, what)},
-                           replay)
+            part.unstageable(d, 'unstageable-not-failed|%s|%s'
+                             % (site, d.refusable),
+                             {'what': '%s: %r (%s) was neither refused nor '
+                                      'carried out: nothing valid at %s (%s), '
+                                      'but the task was passed on'
+                                      % (tm.uid, d.as_input(), d.refusable,
+                                         d.tgt_path, what)},
+                             replay)
             continue
 
         detail = {'what': '%s: %r: expected %s to hold the bytes of %s'
@@ -613,38 +666,93 @@ def check_targets(part, w, tm, directives, replay, verbose, obs):
             part.fails[key] = (detail, replay)
 
 
-def aggregate(ctx, evals, fails):
+def aggregate(ctx, evals, fails, unst, multi):
     """
-    name every group of target failures (same symptom, same site) by the
-    smallest set of directive attributes S for which the failing directives
-    are complete classes: every evaluated directive which agrees with a failing
-    one on S fails too.
+    name every target failure (symptom, site) by the smallest set S of
+    directive attributes such that every evaluated directive which agrees with
+    the failing one on S fails in the same way: failures with one cause share
+    a key, whatever the other attributes of the directive are.
     """
     universe = set(evals.keys())
+
+    # kinds of directives (direction, action) which are never carried out
+    never = set()
+    for da in set(u[0:3:2] for u in universe):
+        members = [u for u in universe if u[0:3:2] == da]
+        if all(any(('missing', site, u) in fails
+                   for site in set(k[1] for k in fails)) for u in members):
+            never.add(da)
+    for (key, direction, action), (detail, replay) in sorted(unst.items()):
+        if (direction, action) not in never:
+            ctx.violation(key, detail, replay)
+
     groups   = dict()
+    failing_any = set()
     for (what, site, attrs), val in fails.items():
         groups.setdefault((what, site), dict())[attrs] = val
+        failing_any.add(attrs)
+
+    # failed tasks with several directives: explained by a failing single one?
+    for (site, combos), (detail, replay) in sorted(multi.items()):
+        if not any(('task-failed', site, c) in fails for c in combos):
+            ctx.violation('good-task-failed|%s|%s' % (site, '+'.join(
+                          '%s:%s:%s' % (c[0], c[2], c[3]) for c in combos)),
+                          detail, replay)
 
     n        = len(ATTRS)
-    subsets  = sorted((itertools.chain.from_iterable(
-                       itertools.combinations(range(n), k)
-                       for k in range(n + 1))), key=lambda s: (len(s), s))
+    # the direction is always part of the name (keys stay the same when a
+    # defect of the other direction is repaired)
+    subsets  = sorted(((0,) + c for c in itertools.chain.from_iterable(
+                       itertools.combinations(range(1, n), k)
+                       for k in range(n))), key=lambda s: (len(s), s))
+
+    cnt_u = dict()    # S -> {value: evaluated classes}
+
+    def count(S, combos):
+        ret = dict()
+        for c in combos:
+            val = tuple(c[i] for i in S)
+            ret[val] = ret.get(val, 0) + 1
+        return ret
 
     for (what, site), failing in sorted(groups.items()):
-        F = set(failing.keys())
-        for S in subsets:
-            proj = lambda c: tuple(c[i] for i in S)                # noqa
-            FS   = set(proj(c) for c in F)
-            if all(u in F for u in universe if proj(u) in FS):
-                break
-        for val in sorted(FS):
-            members = sorted(c for c in F if proj(c) == val)
+        F     = set(failing.keys())
+        keys  = dict()     # (S, value) -> members
+        cnt_f = dict()
+
+        def uniform(S, c):
+            if S not in cnt_u: cnt_u[S] = count(S, universe)
+            if S not in cnt_f: cnt_f[S] = count(S, failing_any)
+            val = tuple(c[i] for i in S)
+            return cnt_u[S][val] == cnt_f[S][val]
+
+        # greedy cover: few attributes first, then most failures explained
+        todo = set(F)
+        for k in range(1, n + 1):
+            while todo:
+                best = None
+                for S in subsets:
+                    if len(S) != k:
+                        continue
+                    cov = [c for c in sorted(todo) if uniform(S, c)]
+                    if cov and (best is None or len(cov) > len(best[1])):
+                        best = (S, cov)
+                if not best:
+                    break
+                S, cov = best
+                for c in cov:
+                    val = tuple(c[i] for i in S)
+                    keys.setdefault((S, val), list()).append(c)
+                todo -= set(cov)
+        for (S, val), members in sorted(keys.items()):
             detail, replay = failing[members[0]]
             detail  = dict(detail, classes=len(members),
                            directives=sum(evals.get(c, 0) for c in members))
             trigger = ','.join('%s=%s' % (ATTRS[i], v)
                                for i, v in zip(S, val)) or 'every-directive'
-            ctx.violation('target-%s|%s|%s' % (what, site, trigger),
+            clause  = 'good-task-failed' if what == 'task-failed' \
+                                         else 'target-%s' % what
+            ctx.violation('%s|%s|%s' % (clause, site, trigger),
                           detail, replay)
 
 
@@ -656,6 +764,15 @@ def fail_site(w, uid, states):
         if s in WORK_STATE:
             return WORK_STATE[s]
     return 'unknown'
+
+
+def good_failed(site, tm, dirs):
+    '''site for a task which was failed although every directive can be
+    carried out'''
+    for d in dirs:
+        if resolution_fault(d, tm.sbx):
+            return SITE_RESOLVE
+    return site
 
 
 def unstageable_site(w, d):
@@ -800,13 +917,13 @@ def _check_case(part, case, root, verbose):
 
         if tm.status == 'passed':
             for d in bad:
-                part.violation('unstageable-not-failed|%s|%s'
-                               % unstageable_site(w, d),
-                               {'what': '%s: source %s of input directive %r '
-                                        'does not exist, but the task was '
-                                        'passed on to the agent scheduler'
-                                        % (uid, d.src_path, d.as_input())},
-                               replay)
+                part.unstageable(d, 'unstageable-not-failed|%s|%s'
+                                 % unstageable_site(w, d),
+                                 {'what': '%s: source %s of input directive %r'
+                                          ' does not exist, but the task was '
+                                          'passed on to the agent scheduler'
+                                          % (uid, d.src_path, d.as_input())},
+                                 replay)
                 if isA:
                     obs.append('%s:missing-ignored' % d.action)
             check_targets(part, w, tm, tm.ins, replay, verbose,
@@ -814,22 +931,20 @@ def _check_case(part, case, root, verbose):
 
         elif tm.status == 'failed':
             if not bad and not ref:
+                site = fail_site(w, uid, states)
+                detail = {'what': '%s: every input directive (%s) can be '
+                                  'carried out, but the task was FAILED: %s'
+                                  % (uid, [d.as_input() for d in tm.ins],
+                                     last[uid].get('exception'))}
                 if isA:
-                    clause  = 'good-task-failed'
-                    trigger = tm.ins[0].cls() if tm.ins else 'none'
+                    part.task_failed(good_failed(site, tm, tm.ins), tm.ins,
+                                     detail, replay)
                 else:
-                    clause  = 'bystander-failed'
-                    abad    = [d for d in A.ins if not d.carriable
-                                                or d.refusable]
-                    trigger = 'sibling:%s' % (abad[0].cls() if abad else
-                                              'good')
-                part.violation('%s|%s|%s' % (clause, fail_site(w, uid, states),
-                                             trigger),
-                               {'what': '%s: every input directive can be '
-                                        'carried out, but the task was FAILED:'
-                                        ' %s' % (uid,
-                                                 last[uid].get('exception'))},
-                               replay)
+                    abad = [d for d in A.ins if not d.carriable
+                                             or d.refusable]
+                    part.violation('bystander-failed|%s|sibling:%s'
+                                   % (site, abad[0].cls() if abad else 'good'),
+                                   detail, replay)
             elif isA and not bad:
                 obs.append('refused:%s' % ref[0].refusable)
 
@@ -904,13 +1019,14 @@ def _check_case(part, case, root, verbose):
 
             if st == rps.DONE:
                 for d in bad:
-                    part.violation('unstageable-not-failed|%s|%s'
-                                   % unstageable_site(w, d),
-                                   {'what': '%s: source %s of output directive'
-                                            ' %r does not exist, but the task '
-                                            'is DONE' % (uid, d.src_path,
-                                                         d.as_input())},
-                                   replay)
+                    part.unstageable(d, 'unstageable-not-failed|%s|%s'
+                                     % unstageable_site(w, d),
+                                     {'what': '%s: source %s of output '
+                                              'directive %r does not exist, '
+                                              'but the task is DONE'
+                                              % (uid, d.src_path,
+                                                 d.as_input())},
+                                     replay)
                     if isA:
                         obs.append('%s:missing-ignored' % d.action)
                 check_targets(part, w, tm, tm.outs, replay, verbose,
@@ -919,23 +1035,22 @@ def _check_case(part, case, root, verbose):
             elif st == rps.FAILED:
                 ibad = [d for d in tm.ins if not d.carriable]
                 if not bad and not ref and not ibad:
+                    site = fail_site(w, uid, states)
+                    detail = {'what': '%s ran successfully and every output '
+                                      'directive (%s) can be carried out, but '
+                                      'it is FAILED: %s'
+                                      % (uid, [d.as_input() for d in tm.outs],
+                                         last[uid].get('exception'))}
                     if isA:
-                        clause  = 'good-task-failed'
-                        trigger = tm.outs[0].cls() if tm.outs else 'none'
+                        part.task_failed(good_failed(site, tm, tm.outs),
+                                         tm.outs, detail, replay)
                     else:
-                        clause  = 'bystander-failed'
-                        abad    = [d for d in A.outs if not d.carriable
-                                                     or d.refusable]
-                        trigger = 'sibling:%s' % (abad[0].cls() if abad else
-                                                  'good')
-                    part.violation('%s|%s|%s' % (clause,
-                                   fail_site(w, uid, states), trigger),
-                                   {'what': '%s ran successfully and every '
-                                            'output directive can be carried '
-                                            'out, but it is FAILED: %s'
-                                            % (uid,
-                                               last[uid].get('exception'))},
-                                   replay)
+                        abad = [d for d in A.outs if not d.carriable
+                                                  or d.refusable]
+                        part.violation('bystander-failed|%s|sibling:%s'
+                                       % (site,
+                                          abad[0].cls() if abad else 'good'),
+                                       detail, replay)
                 elif isA and not bad and not ibad:
                     obs.append('refused:%s' % ref[0].refusable)
             else:
@@ -1062,10 +1177,12 @@ def gen_cases(quick):
     # part odd: spellings at the edge of the documented forms
     for direction in ('in', 'out'):
         for action in ACTIONS:
-            for odd in ('space', 'dotdot', 'host'):
+            for odd in ('space', 'dotmid', 'dotdot', 'host'):
                 for src in (['client', 'flat'], ['pilot', 'flat'],
                             ['rel', 'flat']):
                     if odd == 'host' and src[0] == 'rel':
+                        continue
+                    if odd == 'dotdot' and src[0] != 'rel':
                         continue
                     cases.append({'part': 'odd', direction: [
                                   {'form': 'dict', 'action': action,
@@ -1089,7 +1206,7 @@ _scratch = None
 
 def _job(idx):
     lo, hi = idx
-    part   = report.Part()
+    part   = Collector()
     counts = dict()
     old    = tempfile.tempdir
     tmp    = '%s/tmp.%d' % (_scratch, os.getpid())
@@ -1123,8 +1240,23 @@ def run(ctx):
     jobs  = [(lo, min(lo + chunk, len(_cases)))
              for lo in range(0, len(_cases), chunk)]
 
+    evals = dict()
+    fails = dict()
+    unst  = dict()
+    multi = dict()
     for res in seams.pmap(_job, jobs, ctx.workers):
         ctx.merge(res)
+        for k, v in res['c11']['evals']:
+            evals[k] = evals.get(k, 0) + v
+        for k, v in res['c11']['fails']:
+            fails.setdefault(k, v)
+        for k, v in res['c11']['unst']:
+            unst.setdefault(k, v)
+        for k, v in res['c11']['multi']:
+            multi.setdefault(k, v)
+    aggregate(ctx, evals, fails, unst, multi)
+    ctx.cover(directives_target_checked=sum(evals.values()),
+              directive_classes=len(evals))
 
     for pick in (lambda c: c['part'] == 'in1' and c['in'][0]['form'] == '>>',
                  lambda c: c['part'] == 'outcome' and c['soe'] is False
@@ -1133,7 +1265,7 @@ def run(ctx):
                            not c['in'][1]['present']):
         for case in _cases:
             if pick(case):
-                obs = check_case(report.Part(), case, _scratch)
+                obs = check_case(Collector(), case, _scratch)
                 ctx.sample({'case': case, 'observed': obs})
                 break
 
@@ -1147,7 +1279,7 @@ def run(ctx):
                  '(outcome) FAILED / CANCELED x stage_on_error x output '
                  'directives; (in2/out2) ordered pairs of representative '
                  'directives x which source is missing; (both) input x output'
-                 ' directive on one task; (odd) file name with space, `..`, '
+                 ' directive on one task; (odd) file name with space, `d/../f`, `../d/f`, '
                  'host element, `f>g`, dict without action.  Every bulk = task'
                  ' under test + bystander.  distinct = distinct (part, forms,'
                  ' observed behaviour) classes'
@@ -1164,13 +1296,21 @@ def run(ctx):
 
 def replay(ctx, data):
     case = data['replay']
-    part = report.Part()
+    part = Collector()
     tempfile.tempdir = ctx.scratch
     print('case:', case)
     obs = check_case(part, case, ctx.scratch, verbose=True)
     print('observed:', obs)
     for k, (d, _) in part.violations.items():
         print('VIOLATED', k, '::', d['what'])
-    if not part.violations:
+    for (what, site, attrs), (d, _) in part.fails.items():
+        print('VIOLATED', '%s|%s|%s' % (what, site, ','.join(
+              '%s=%s' % kv for kv in zip(ATTRS, attrs))), '::', d['what'])
+    for (key, _, _), (d, _) in part.unst.items():
+        print('VIOLATED', key, '::', d['what'])
+    for (site, combos), (d, _) in part.multi.items():
+        print('VIOLATED', 'good-task-failed|%s' % site, '::', d['what'])
+    bad = part.violations or part.fails or part.unst or part.multi
+    if not bad:
         print('no clause violated')
-    return 1 if part.violations else 0
+    return 1 if bad else 0
